@@ -86,8 +86,8 @@ func NewDirector(rt *verifsim.Runtime, ch *Choices, budget int) *Director {
 
 // DrawPolicy chooses the scheduling policy of the run.
 func (d *Director) DrawPolicy() {
-	d.Policy = d.Ch.Weighted("prog", []int{3, 4, 2, 0})
-	d.StickyP = []float64{0.5, 0.8, 0.95}[d.Ch.Pick("prog", 3)]
+	d.Policy = d.Ch.Weighted("policy", []int{3, 4, 2, 0})
+	d.StickyP = []float64{0.5, 0.8, 0.95}[d.Ch.Pick("policy", 3)]
 	if d.Policy == PolPCT && !d.Ch.Replay {
 		r := d.Ch.rng("pct")
 		for i := 0; i < 1+r.Intn(3); i++ {
